@@ -10,5 +10,9 @@ void parsec_class_initialize(parsec_class_t *cls){
   cls->cls_depth=depth; int ci=nc, di=0; carr[me][nc]=0;
   for(c=cls;c;c=c->cls_parent){ if(c->cls_construct) carr[me][--ci]=c->cls_construct; if(c->cls_destruct) darr[me][di++]=c->cls_destruct; }
   darr[me][di]=0; cls->cls_construct_array=carr[me]; cls->cls_destruct_array=darr[me]; cls->cls_initialized=1; }
-void parsec_obj_destruct(parsec_object_t *o){ parsec_obj_run_destructors(o); }
-void parsec_obj_destruct_and_free(parsec_object_t *o){ parsec_obj_run_destructors(o); free(o); }
+/* C15: no object may be destroyed during the scenario (the user still holds a reference on every taskpool):
+ * the release functions only count, the harness asserts the count stays 0.  (Running the real destructor
+ * chain here makes CBMC explore every one-pointer function as a destructor candidate, recursively.) */
+int vp_destroyed;
+void parsec_obj_destruct(parsec_object_t *o){ (void)o; vp_destroyed++; }
+void parsec_obj_destruct_and_free(parsec_object_t *o){ (void)o; vp_destroyed++; }
